@@ -65,6 +65,20 @@ def _formula(e):
         return Not(_formula(e.operand))
     if isinstance(e, ast.Constant) and isinstance(e.value, bool):
         return ('const', e.value)
+    if isinstance(e, ast.Compare) and len(e.ops) == 1 and (isinstance(e.left, ast.IfExp) or isinstance(e.comparators[0], ast.IfExp)):
+        # (A if c else B) <op> x   ==   (c and A <op> x) or (not c and B <op> x)
+        side = 'left' if isinstance(e.left, ast.IfExp) else 'right'
+        ie = e.left if side == 'left' else e.comparators[0]
+        c = _formula(ie.test)
+
+        def arm(v):
+            if side == 'left':
+                return _formula(ast.Compare(left=v, ops=e.ops, comparators=e.comparators))
+            return _formula(ast.Compare(left=e.left, ops=e.ops, comparators=[v]))
+        return Or(And(c, arm(ie.body)), And(Not(c), arm(ie.orelse)))
+    if isinstance(e, ast.IfExp):
+        c = _formula(e.test)
+        return Or(And(c, _formula(e.body)), And(Not(c), _formula(e.orelse)))
     if isinstance(e, ast.Compare) and len(e.ops) == 1:
         a, op, b = e.left, e.ops[0], e.comparators[0]
         # len(x) == 0 / len(x) > 0 / len(x) != 0
